@@ -20,7 +20,10 @@
 (*         rerun     same process, same prior global state    => same digest             *)
 (*         global    same process, other prior global state   => same digest             *)
 (*         hash      other hash seed, same prior global state => same digest             *)
-(* (P) invariants Isolated, Repeatable, GlobalIndependent, HashIndependent on `out`.     *)
+(*         reuse     second call on the same object (reuse = 1), same process and prior   *)
+(*                   state as a fresh-object run           => same digest               *)
+(* (P) invariants Isolated, Repeatable, GlobalIndependent, HashIndependent, Reusable     *)
+(*     on `out`.                                                                        *)
 (*                                                                                      *)
 (* MODE = "mc"    (IOEnv.IDIOM selects one idiom, a group, or "all")                      *)
 (*     The seeding idioms are alternative definitions of Exec.  Sound ones, which the     *)
@@ -41,6 +44,8 @@
 (*       unthreaded_first_draw  roll-out whose initial-state draw omits rng=             *)
 (*       obj_hash               per-(state, option) seed from builtin hash((s, o, seed)) *)
 (*       obj_identity           the same with an object that keeps the identity hash     *)
+(*       generator_in_init      random.Random(seed) built once in __init__ and used by   *)
+(*                              every call: a second call continues the stream           *)
 (*     A run returns the worst case "result = the stream it consumed".  TLC explores      *)
 (*     every idiom x seed (0 included) x label kind x initial-support size x two          *)
 (*     processes with different hash seeds x all prior global states, checks              *)
@@ -64,27 +69,31 @@ vars == <<tid, l, glob, memo, out, acc>>
 
 Range(sq) == {sq[i] : i \in 1..Len(sq)}
 Gens    == {"random", "numpy", "torch"}
-Clauses == {"isolated", "rerun", "global", "hash"}
+Clauses == {"isolated", "rerun", "global", "hash", "reuse"}
 Idioms  == {"private", "threaded", "stable_obj_seed", "seed_or_draw_numpy", "seed_or_draw_torch",
-            "unthreaded_first_draw", "obj_hash", "obj_identity"}
+            "unthreaded_first_draw", "obj_hash", "obj_identity", "generator_in_init"}
 GoodIdioms == {"private", "threaded", "stable_obj_seed"}
 
 \* ------------------------------------------------------------------ judging one run
 Prev(mm, s) == IF s \in DOMAIN mm THEN mm[s] ELSE {}
-Entry(e) == [hs |-> e.hs, pid |-> e.pid, pert |-> e.pert, dig |-> e.dig, cdig |-> e.cdig, adig |-> e.adig]
+Entry(e) == [hs |-> e.hs, pid |-> e.pid, pert |-> e.pert, reuse |-> e.reuse, dig |-> e.dig, cdig |-> e.cdig, adig |-> e.adig]
 Touched(e) == {g \in Gens : e.pre[g] # e.post[g]}
 
 \* earlier runs of the same key that the statement requires to agree with e, per clause
 Peers(prev, e, c) ==
-  CASE c = "rerun"  -> {m \in prev : m.hs = e.hs /\ m.pert = e.pert}
-    [] c = "global" -> {m \in prev : m.hs = e.hs /\ m.pert # e.pert}
-    [] c = "hash"   -> {m \in prev : m.hs # e.hs /\ m.pert = e.pert}
+  \* runs on a fresh object are compared with each other ...
+  CASE c = "rerun"  -> {m \in prev : e.reuse = 0 /\ m.reuse = 0 /\ m.hs = e.hs /\ m.pert = e.pert}
+    [] c = "global" -> {m \in prev : e.reuse = 0 /\ m.reuse = 0 /\ m.hs = e.hs /\ m.pert # e.pert}
+    [] c = "hash"   -> {m \in prev : e.reuse = 0 /\ m.reuse = 0 /\ m.hs # e.hs /\ m.pert = e.pert}
+  \* ... and a second call on the same object with the fresh runs of its process under the same
+  \* prior state (only logged for objects that take a seed parameter and re-seed on every call)
+    [] c = "reuse"  -> {m \in prev : e.reuse = 1 /\ m.reuse = 0 /\ m.hs = e.hs /\ m.pert = e.pert}
     [] OTHER        -> {}
 Differ(prev, e, c) == {m \in Peers(prev, e, c) : m.dig # e.dig}
 
 Judge(prev, e) ==
   LET t    == Touched(e)
-      bad  == {c \in {"rerun", "global", "hash"} : Differ(prev, e, c) # {}}
+      bad  == {c \in {"rerun", "global", "hash", "reuse"} : Differ(prev, e, c) # {}}
       fail == bad \cup (IF t # {} THEN {"isolated"} ELSE {})
       \* a failing comparison is "ulp only" when all differing peers agree on the coarse digest
       ulp  == {c \in bad : \A m \in Differ(prev, e, c) : m.cdig = e.cdig}
@@ -99,6 +108,7 @@ Isolated          == out.kind = "run" => out.touched = {}
 Repeatable        == out.kind = "run" => "rerun"  \notin out.fail
 GlobalIndependent == out.kind = "run" => "global" \notin out.fail
 HashIndependent   == out.kind = "run" => "hash"   \notin out.fail
+Reusable          == out.kind = "run" => "reuse"  \notin out.fail
 
 \* ------------------------------------------------------------------ the idioms (MC)
 \* which clauses an idiom can break, as a function of the input shape:
@@ -111,6 +121,7 @@ Breaks(idiom, z, lk, multi) ==
     [] idiom = "unthreaded_first_draw"   -> IF multi = 1 THEN {"isolated", "global"} ELSE {}
     [] idiom = "obj_hash"                -> IF lk = "str" THEN {"hash"} ELSE {}
     [] idiom = "obj_identity"            -> {"rerun", "global", "hash"}
+    [] idiom = "generator_in_init"       -> {"reuse"}
     [] OTHER                             -> Clauses
 
 Procs  == {1, 2}
@@ -139,6 +150,16 @@ Exec(idiom, seed, lk, multi, p, pre, addr) ==
          [eff |-> <<"hash", seed, IF lk = "str" THEN HSof(p) ELSE 0>>, post |-> pre]
     [] idiom = "obj_identity" ->
          [eff |-> <<"addr", addr>>, post |-> pre]
+    [] idiom = "generator_in_init" ->           \* first call on a new object: stream starts at the seed
+         [eff |-> <<"seed", seed>>, post |-> pre]
+
+\* a second call on the object whose first call was the last fresh run of process p (MC: l = p).
+\* Modelled for the idioms of objects that take a seed parameter; an object that built its
+\* generator once in __init__ continues the stream instead of restarting it
+ReuseIdioms == GoodIdioms \cup {"generator_in_init"}
+ExecReuse(idiom, seed, lk, multi, p, pre) ==
+  IF idiom = "generator_in_init" THEN [eff |-> <<"seed", seed, "continued">>, post |-> pre]
+  ELSE Exec(idiom, seed, lk, multi, p, pre, 0)
 
 IdiomSel == IOEnv.IDIOM
 Selected == IF IdiomSel = "all" THEN Idioms
@@ -163,16 +184,28 @@ MCRun(p) ==
   \E addr \in (IF tid.idiom = "obj_identity" THEN {0, 1} ELSE {0}) :
     LET pre == glob[p]
         x   == Exec(tid.idiom, tid.seed, tid.lk, tid.multi, p, pre, addr)
-        e   == [hs |-> HSof(p), pid |-> 0, pert |-> pre, dig |-> x.eff, cdig |-> x.eff, adig |-> 0,
+        e   == [hs |-> HSof(p), pid |-> 0, pert |-> pre, reuse |-> 0, dig |-> x.eff, cdig |-> x.eff, adig |-> 0,
                 pre |-> pre, post |-> x.post]
         v   == Judge(Prev(memo, tid.seed), e)
     IN /\ out' = [kind |-> "run", touched |-> v.touched, fail |-> v.fail]
        \* every pair of runs occurs as (first run, later run): remembering the first is enough
        /\ memo' = IF tid.seed \in DOMAIN memo THEN memo ELSE (tid.seed :> {Entry(e)})
        /\ glob' = [glob EXCEPT ![p] = x.post]
-       /\ UNCHANGED <<tid, l, acc>>
+       /\ l' = p                                   \* the live object belongs to process p
+       /\ UNCHANGED <<tid, acc>>
 
-MCNext == \E p \in Procs : MCPerturb(p) \/ MCRun(p)
+MCReuse(p) ==
+  /\ l = p /\ tid.idiom \in ReuseIdioms
+  /\ LET pre == glob[p]
+         x   == ExecReuse(tid.idiom, tid.seed, tid.lk, tid.multi, p, pre)
+         e   == [hs |-> HSof(p), pid |-> 0, pert |-> pre, reuse |-> 1, dig |-> x.eff, cdig |-> x.eff, adig |-> 0,
+                 pre |-> pre, post |-> x.post]
+         v   == Judge(Prev(memo, tid.seed), e)
+     IN /\ out' = [kind |-> "run", touched |-> v.touched, fail |-> v.fail]
+        /\ glob' = [glob EXCEPT ![p] = x.post]
+        /\ UNCHANGED <<tid, l, memo, acc>>
+
+MCNext == \E p \in Procs : MCPerturb(p) \/ MCRun(p) \/ MCReuse(p)
 
 Z(seed) == IF seed = 0 THEN 1 ELSE 0
 \* design invariant: the characterisation Breaks is sound (exactness = every predicted clause
@@ -206,7 +239,7 @@ TrRun ==
   /\ l <= Len(Tr.ev) /\ Ev.k = "R"
   /\ LET \* the identity of the prior state of the globals is the recorded state itself; pid is the
          \* number of the perturbation that the worker applied (used for coverage and wf only)
-         e == [hs |-> Tr.procs[Ev.proc].hs, pid |-> Ev.pert, pert |-> GenState(Ev.pre), dig |-> Ev.dig,
+         e == [hs |-> Tr.procs[Ev.proc].hs, pid |-> Ev.pert, pert |-> GenState(Ev.pre), reuse |-> Ev.reuse, dig |-> Ev.dig,
                cdig |-> Ev.cdig, adig |-> Ev.adig, pre |-> GenState(Ev.pre), post |-> GenState(Ev.post)]
          v == Judge(Prev(memo, Ev.seed), e)
          \* explained by the model: the run starts in the state the last Perturb left, and the same
@@ -228,7 +261,8 @@ TrRun ==
 \* clauses observed to fail for a seed; a component that is not even repeatable makes the
 \* comparisons across prior states and processes meaningless, so "rerun" masks them
 RawObs(s) == {a.clause : a \in {b \in acc : b.seed = s}} \cap Clauses
-Obs(s) == IF "rerun" \in RawObs(s) THEN RawObs(s) \ {"global", "hash"} ELSE RawObs(s)
+Masked(b) == IF "rerun" \in b THEN b \ {"global", "hash", "reuse"} ELSE b
+Obs(s) == Masked(RawObs(s))
 UlpOnly(s, c) == \A a \in acc : (a.seed = s /\ a.clause = c) => a.ulp
 GensTouched(s) == UNION {a.gens : a \in {b \in acc : b.seed = s}}
 
@@ -241,8 +275,7 @@ Summary ==
       observed |-> [s \in seeds |-> Obs(s)],
       ulponly |-> [s \in seeds |-> {c \in Obs(s) : UlpOnly(s, c)}],
       gens |-> [s \in seeds |-> GensTouched(s)],
-      predicted |-> [s \in seeds |-> LET b == Breaks(Tr.idiom, IF s = "0" THEN 1 ELSE 0, Tr.lk, Tr.multi)
-                                     IN IF "rerun" \in b THEN b \ {"global", "hash"} ELSE b],
+      predicted |-> [s \in seeds |-> Masked(Breaks(Tr.idiom, IF s = "0" THEN 1 ELSE 0, Tr.lk, Tr.multi))],
       aux |-> {a.seed : a \in {b \in acc : b.clause = "aux"}},
       malformed |-> {a.seed : a \in {b \in acc : b.clause = "malformed"}},
       \* the result depends on the random stream: some two seeds gave different results
@@ -251,7 +284,7 @@ Summary ==
       \* every planned run is in the log: seeds x processes x prior states (a rerun shares its pair)
       covered |-> /\ seeds = Range(Tr.seeds)
                   /\ \A s \in seeds : runs[s] = {<<Tr.procs[p].hs, q>> : p \in 1..NP(Tr), q \in Range(Tr.perts)}
-                  /\ Cardinality({i \in 1..Len(Tr.ev) : Tr.ev[i].k = "R"}) = Len(Tr.seeds) * NP(Tr) * Len(Tr.perts),
+                  /\ Cardinality({i \in 1..Len(Tr.ev) : Tr.ev[i].k = "R"}) = Len(Tr.seeds) * NP(Tr) * (Len(Tr.perts) + Tr.reuse),
       listorder |-> Cardinality({Tr.procs[p].lo : p \in 1..NP(Tr)}) > 1,
       nruns |-> Cardinality({i \in 1..Len(Tr.ev) : Tr.ev[i].k = "R"})]
 
